@@ -42,8 +42,9 @@ def burst_ops(rng, i, n, sleeps, kinds=("put", "get", "raw")):
             continue
         if kind == "put":
             v = str(rng.randint(0, 99))
-            if rng.random() < 0.06:
-                v = rng.choice(["a\nb", "x\ry", " padded ", "\n", "Ünï 𝄞", "a:b=c", ""])
+            if rng.random() < 0.12:
+                # (characters that mean something to a formatter, a logger, a shell or a path — as a value they are just characters)
+                v = rng.choice(["a\nb", "x\ry", " padded ", "\n", "Ünï 𝄞", "a:b=c", "", "100%", "%s %d", "{} {0}", "back\\slash", "it's \"q\"", "%(x)s", "$HOME `x`", "tab\there"])
             ops.append(["put", f"C{i}", f"F{k}", v])
         elif kind == "get":
             ops.append(["get", f"C{i}", f"F{k}"])
@@ -52,7 +53,7 @@ def burst_ops(rng, i, n, sleeps, kinds=("put", "get", "raw")):
     return ops
 
 
-def conn_traffic(rng, max_threads=4, max_cmds=40, long_idle=True, log_sizes=(0,)):
+def conn_traffic(rng, max_threads=4, max_cmds=40, long_idle=True, log_sizes=(0, 0, 5)):
     """C01/C08/C12/C20 flavour: bursts from 1..4 callers, idle gaps around the keep-alive interval"""
     nthreads = rng.randint(1, max_threads)
     sleeps = [0, 0, 0, 0.01, 0.05, 0.1, 0.3] + ([5, 29.8, 30, 30.05, 31, 45, 61] if long_idle else [])
